@@ -198,6 +198,14 @@ def scenarios(models, tier):
                 S.append(Scn('S3seek', fm, 's', [kind + arg, 'rf4096', 'rf4096'], True, '%s%dfresh' % (kind, i)))
                 if full:
                     S.append(Scn('S6lap', fm, 's', ['rf4096', kind.upper() + arg, 'rf4096'], True, '%s%d' % (kind.upper(), i)))
+            if full and fm.nl > 1:
+                # lapped seeks that certainly cross a link boundary, in both directions, landing in the middle of the
+                # other link (the decoder of the old link is dumped and the new one must be primed through reads)
+                first_mid, last_mid = fm.start[1] // 2, (fm.start[fm.nl - 1] + fm.L) // 2
+                for tag, frm, to in (('xfwd', first_mid, last_mid), ('xback', last_mid, first_mid)):
+                    lk = fm.lt[fm.link_of_pos(to)]
+                    arg = str(to) if kind in ('ps', 'pp') else str((lk['offset'] + lk['end']) // 2) if kind == 'rs' else time_of(fm, to)
+                    S.append(Scn('S6lap', fm, 's', ['ps%d' % frm, 'rf4096', kind.upper() + arg, 'rf4096'], True, '%s%s' % (kind.upper(), tag)))
         if full:
             S.append(Scn('S4halfrate', fm, 's', ['h1', 'ps%d' % pts[1], 'rf4096'], True, 'h1ps'))
             S.append(Scn('S4halfrate', fm, 's', ['rf4096', 'h1', 'rf4096', 'pp%d' % pts[2], 'rf4096'], True, 'rfh1pp'))
@@ -251,6 +259,10 @@ def recovery_view(r, nops):
 
 
 def key_for(what, scn, faults, phase):
+    shape = 'single' if scn.fm.nl == 1 else 'chain_last_link_multiplexed_tail' if scn.fm.links[-1].get('foreign') and scn.fm.pages[-1].serial == scn.fm.links[-1]['foreign'] else 'chain'
+    if not faults:
+        # the scenario misbehaves without any deviation: "nothing is accessed out of bounds" / termination fail outright
+        return '%s:%s:fault_free_baseline:%s' % (what, scn.cls, shape)
     k0, kind0, per0 = faults[0]
     if (what == 'timeout' and scn.mode == 's' and len(faults) == 1 and kind0 == 'zero' and per0 and phase == 'open'):
         return 'open_persisting_zero_read_never_returns'
@@ -258,7 +270,6 @@ def key_for(what, scn, faults, phase):
     if (what == 'timeout' and scn.mode == 's' and all(not per and k < scn.cum[0] for k, kind, per in faults) and any(kind == 'zero' for _, kind, _ in faults)):
         return 'open_oneshot_zero_read_never_returns'
     fk = '+'.join('%s%s' % (kind, '*' if per else '') for _, kind, per in faults)
-    shape = 'single' if scn.fm.nl == 1 else 'chain_last_link_multiplexed_tail' if scn.fm.links[-1].get('foreign') and scn.fm.pages[-1].serial == scn.fm.links[-1]['foreign'] else 'chain'
     return '%s:%s:fault_%s_during_%s:%s' % (what, scn.cls, fk, phase, shape)
 
 
@@ -282,26 +293,61 @@ class Dev:
         self.open_scn = {}
         self.timing = []
         self.machinery = []
+        self.dropped = []          # scenarios whose fault-free run did not complete (reported as violations)
+        self.xlap = {}             # lapped seek kind -> persisting read faults applied inside a link-crossing lapped seek
         self.ref_total, self.ref_unclean = 0, []
 
     # -- baseline ----------------------------------------------------------
+    def faultfree_failure(self, s, ops, probe, r, what_run):
+        """a fault-free run died / hung / could not be parsed.  A sanitizer report, crash or non-returning call of the
+        tree under test is a VIOLATION of the safety clause (with a replay); only unparseable executor output is machinery."""
+        probs = safety_problems(r, s, ops)
+        what, desc = probs[0]
+        if what == 'machinery':
+            self.machinery.append((s.name, 'none', desc))
+        elif what == 'timeout':
+            self.pending_timeouts.append((s, (), 'fault_free_baseline', list(ops), probe))
+        else:
+            self.chk.violation(key_for(what, s, (), 'fault_free_baseline'), '%s: %s WITHOUT any callback fault (%s): %s' % (s.name, what_run, ' '.join(ops) or 'open only', desc),
+                               self.replay_of(s, (), probe, ops, 'safety'))
+
     def baselines(self, scns):
+        """fault-free runs of every scenario and of every prefix of it.  Returns the scenarios that can be enumerated
+        (a scenario whose fault-free run does not complete is reported and dropped)."""
         cases, idx = [], []
         for s in scns:
             for i in range(len(s.ops) + 1):
                 cases.append(case_line(s.fm, s.mode, (), 'none', s.ops[:i]))
                 idx.append((s, i))
         res = self.rn.run(cases)
+        dead = set()
         for (s, i), r in zip(idx, res):
-            if 'err' in r or r['O'] != 0:
-                raise SystemExit('C12: fault-free run of %s failed: %r' % (s.name, r))
+            if s.name in dead:
+                continue
+            if 'err' in r:
+                # prefixes come in increasing length: this is the shortest history that fails
+                self.faultfree_failure(s, s.ops[:i], 'none', r, 'fault-free run')
+                dead.add(s.name)
+                self.dropped.append(s.name)
+                continue
+            if r['O'] != 0:
+                # not an I/O-failure matter (C09's): the scenario cannot be enumerated, the run is incomplete
+                self.chk.guard(False, 'fault-free open of %s returned %d' % (s.name, r['O']))
+                dead.add(s.name)
+                self.dropped.append(s.name)
+                continue
             if i == 0:
                 s.cum = []
             s.cum.append(int(r['E']))
             if i == len(s.ops):
                 s.base, s.N = r, int(r['E'])
+                s.xlink = False
+                for j, op in enumerate(s.ops):
+                    if op[:2] in SEEK2 and op[:2].isupper() and j > 0 and r['R'][j][0] == 0 and r['R'][j - 1][1] >= 0:
+                        s.xlink = s.fm.link_of_pos(r['R'][j - 1][1]) != s.fm.link_of_pos(r['R'][j][1])
                 for p in safety_problems(r, s, s.ops):
                     self.chk.violation('faultfree:%s:%s' % (s.cls, p[0]), 'fault-free run of %s: %s' % (s.name, p[1]), self.replay_of(s, (), 'none', s.ops, 'safety'))
+        scns = [s for s in scns if s.name not in dead]
         # recovery references: same history, no fault, then q + seek + read-through
         cases, idx = [], []
         for s in scns:
@@ -314,6 +360,10 @@ class Dev:
         for s in scns:
             s.ref = {}
         for (s, rop), r in zip(idx, res):
+            if 'err' in r:
+                self.faultfree_failure(s, s.ops + ['q', rop], 'plin', r, 'fault-free recovery reference')
+                s.ref[rop] = None          # this target cannot be judged
+                continue
             v = recovery_view(r, len(s.ops))
             s.ref[rop] = v
             # The verdict is equality with this reference whatever it is ("exactly as on a handle that never saw the
@@ -328,6 +378,7 @@ class Dev:
                 self.ref_unclean.append({'scenario': s.name, 'recovery_op': rop, 'fault_free_view': list(v)})
         self.chk.guard(len(self.ref_unclean) * 20 <= self.ref_total, 'fault-free recovery references are clean seeks (rc 0, tell = target, read-through = linear decode): %d of %d are not, e.g. %r'
                        % (len(self.ref_unclean), self.ref_total, self.ref_unclean[:2]))
+        return scns
 
     def recovery_ops(self, fm):
         if fm.name not in self.rtargets:
@@ -401,6 +452,8 @@ class Dev:
             ps['effective'] += 1
             fcls = ''.join(sorted(set(FAULTS[kind][2] for _, kind, _ in f)))
             self.phase_hits[(s.cls, phase, fcls)] = self.phase_hits.get((s.cls, phase, fcls), 0) + 1
+            if s.cls == 'S6lap' and getattr(s, 'xlink', False) and len(f) == 1 and f[0][2] and FAULTS[f[0][1]][2] == 'R' and phase in SEEK2 and phase.isupper():
+                self.xlap[phase] = self.xlap.get(phase, 0) + 1
             self.outcomes.add((s.cls, phase, tuple(x[1:] for x in f), r['O'], tuple(rc for rc, _ in r['R']), r.get('F')))
             if len(self.samples) < 400:
                 self.samples.append({'scenario': s.name, 'faults': fault_name(f), 'phase': phase, 'case': case_line(s.fm, s.mode, f, 'none', s.ops), 'open': r['O'], 'rcs': [rc for rc, _ in r['R']]})
@@ -528,7 +581,7 @@ class Dev:
         groups = {}
         for t in self.pending_timeouts:
             s, f, phase = t[0], t[1], t[2]
-            what = 'timeout' if len(t) == 3 else 'recovery_timeout'
+            what = 'timeout' if len(t) == 3 or not f else 'recovery_timeout'
             groups.setdefault(key_for(what, s, f, phase), []).append(t)
         cases = []
         for key, ts in sorted(groups.items()):
@@ -569,7 +622,7 @@ def run(tier):
     # internal deadline (s): ends the run with exhaustive:false; C12_DEADLINE_S overrides it on an overloaded machine
     dev = Dev(chk, rn, tier, t0 + float(os.environ.get('C12_DEADLINE_S', 150 if tier == 'quick' else 1380)))
     scns = scenarios(models, tier)
-    dev.baselines(scns)
+    scns = dev.baselines(scns)      # scenarios whose fault-free run fails are reported (violation) and dropped
     # order: open scenarios of the small files (their open results prune the other scenarios), all other scenarios, and
     # the large chain last: if calls hang (1 CPU-second each) and the deadline strikes, it cuts the most redundant tail
     first = [s for s in scns if s.tag == 'open' and s.fm.name != 'BIG']
@@ -606,6 +659,8 @@ def run(tier):
         'stats': dev.stats,
         'effective_faults_by_phase': {'%s/%s/%s' % k: v for k, v in sorted(dev.phase_hits.items())},
         'observations_not_judged': dev.obs,
+        'scenarios_dropped_fault_free_run_failed': dev.dropped,
+        'persisting_read_faults_inside_cross_link_lapped_seeks': dev.xlap,
         'recovery_references': {'total': dev.ref_total, 'not_a_clean_seek': dev.ref_unclean[:20]},
         'per_scenario': dev.per_scn if len(dev.per_scn) <= 60 else {k: v for k, v in list(sorted(dev.per_scn.items()))[::max(1, len(dev.per_scn) // 40)]},
         'watchdog_cpu_s': wd,
@@ -632,14 +687,16 @@ def run(tier):
     chk.guard(not dev.det_errors, 'runs whose deviation was never reached are identical to the fault-free run: %r' % (dev.det_errors[:1],))
     chk.guard(dev.cut or dev.stats['recovery_cases'] > 500, 'recovery clause exercised')
     chk.guard(all(len(v) >= 8 for v in dev.rtargets.values()) and len(dev.rtargets) >= 2, '8 recovery targets per file')
-    big = [s for s in scns if s.fm.name == 'BIG'][0]
-    chk.guard(int(big.base.get('B', 0)) > CHUNKSIZE and big.fm.size > 2 * CHUNKSIZE, 'large chain: open performs seeks further than CHUNKSIZE back (bisection / chunked backward scan reached)')
+    for big in [s for s in scns if s.fm.name == 'BIG']:
+        chk.guard(int(big.base.get('B', 0)) > CHUNKSIZE and big.fm.size > 2 * CHUNKSIZE, 'large chain: open performs seeks further than CHUNKSIZE back (bisection / chunked backward scan reached)')
     for s in scns:
         if s.fm.name in ('MT2', 'MT3'):
             fm = s.fm
             chk.guard(fm.nl >= 2 and fm.pages[-1].serial == fm.links[-1]['foreign'] and fm.pages[-1].serial != fm.links[-1]['serial']
                       and int(s.base.get('N', -1)) == fm.L,
                       '%s: chain of %d links, the physically last page belongs to the foreign stream of the last link, fault-free open reports the constructed length' % (fm.name, fm.nl))
+    chk.guard(dev.cut or bool(dev.dropped) or all(dev.xlap.get(k, 0) >= 2 for k in ('PS', 'PP', 'RS', 'TS', 'TP')),
+              'persisting read faults applied inside link-crossing lapped seeks of every kind (from every read index of the call): %r' % (dev.xlap,))
     unk = [s.name for s in scns if len(s.pclass) != s.N]
     chk.guard(dev.cut or not unk, 'callback class (read/seek/tell) learned for every point of every scenario: %r' % (unk[:3],))
     return chk.finish()
